@@ -9,7 +9,8 @@ import tempfile
 from pathlib import Path
 
 HOME = tempfile.mkdtemp(prefix="verif_finding_")
-os.environ["HOME"] = HOME  # sbml.read writes generated modules to ~/.cache/mxlpy
+os.environ["HOME"] = HOME
+__import__("atexit").register(__import__("shutil").rmtree, HOME, ignore_errors=True)  # sbml.read writes generated modules to ~/.cache/mxlpy
 
 import numpy as np  # noqa: E402,F401
 from mxlpy import Derived, InitialAssignment, Model, sbml  # noqa: E402,F401
